@@ -1480,3 +1480,30 @@ def rule_ioretmisc(text):
             apps.append(_app(rname, text, mm.start(), mm.end(), new, why))
             text = text[:mm.start()] + new + text[mm.end():]
     return text, apps
+
+
+def rule_winnersmisc(text):
+    """recovery post-scan pass one-offs"""
+    apps = []
+    table = [
+        (r"crossbeam_epoch\s*::\s*pin\s*\(\s*\)", "epoch_pin()", "R-handle", "shim: pinning the epoch has no sequential effect"),
+        (r"(\w+)\s*\.\s*as_deref\s*\(\s*\)", r"opt_as_slice(&\1)", "R-asderef", "shim: Option<Vec<u8>>::as_deref"),
+        (r"(\w+)\s*\.\s*key\s*\(\s*\)\s*\.\s*clone\s*\(\s*\)", r"vec_clone_u8(\1.key())", "R-clone", "shim: cloning a Vec<u8> copies its bytes"),
+        (r"(\w+)\s*\.\s*key\s*\.\s*clone\s*\(\s*\)", r"vec_clone_u8(&\1.key)", "R-clone", "shim: cloning a Vec<u8> copies its bytes"),
+        (r"\bkey\s*\.\s*clone\s*\(\s*\)", r"vec_clone_u8(&key)", "R-clone", "shim: cloning a Vec<u8> copies its bytes"),
+        (r"Arc\s*::\s*ptr_eq\s*\(", "arc_ptr_eq(", "R-ptreq", "shim: pointer identity of two Arcs (an opaque relation)"),
+        (r"(\w+)\s*\.\s*refcount\s*\.\s*store\s*\(\s*0\s*,[^;]*\)\s*;", r"mark_dead(&\1);", "R-refcount", "shim: marking a generation dead (an atomic store through a shared reference)"),
+    ]
+    for pat, rep, rname, why in table:
+        n = 0
+        while n < 8:
+            n += 1
+            mm = re.search(pat, text)
+            if not mm:
+                break
+            new = mm.expand(rep)
+            if new == text[mm.start():mm.end()]:
+                break
+            apps.append(_app(rname, text, mm.start(), mm.end(), new, why))
+            text = text[:mm.start()] + new + text[mm.end():]
+    return text, apps
